@@ -90,7 +90,8 @@ class C13(Check):
     def coq(self, case, obs):
         logs = [(float.fromhex(a), float.fromhex(b)) for a, b in obs["logs"]]
         exp = None if obs.get("d") is None else np.array([float.fromhex(h) for h in obs["d"]])
-        return crowd.metric_term(case["label"], decarr(case["F"], 2), case["n_remove"], exp, logs=logs, argpart=obs.get("argpart"), engine=case["engine"])
+        F = decarr(case["F"], 2)
+        return crowd.with_tinydup(case["label"], F, crowd.metric_term(case["label"], F, case["n_remove"], exp, logs=logs, argpart=obs.get("argpart"), engine=case["engine"]))
 
     def model_flags(self, results):
         out = []
@@ -103,9 +104,12 @@ class C13(Check):
     def known(self, case, obs, msg):
         """a failure is a known finding only if it happens in a compiled kernel and the MODEL predicts it:
         a memory error first occurring at one of the recorded sites, or the duplicated-neighbour event of mnn"""
+        a = getattr(self, "aux", {}).get(getattr(self, "cur", None), {})
+        F = decarr(case["F"], 2)
+        if a.get("tinydup") and len(np.unique(F, axis=0)) == len(F) and msg.split(":")[0] in ("C13-extreme", "C13-definition"):
+            return "metrics/dup-eps-absolute"      # distinct points closer than 1e-32 in raw units are filtered as duplicates: the MODEL's filter flags one
         if case.get("engine") != "compiled" or case["label"] not in ("pcd", "mnn", "2nn"):
             return None
-        a = getattr(self, "aux", {}).get(getattr(self, "cur", None), {})
         if a.get("oob"):
             return "compiled/pcd/OOB" if case["label"] == "pcd" else "compiled/mnn/OOB-read"
         if a.get("dup") and case["label"] == "mnn" and msg.startswith("C13-definition"):
